@@ -729,10 +729,12 @@ def process_state_case(ctx, rng, suite="C18.process_state", node_variant=None):
         if rng.random() < 0.5:
             st["constraints"] = [[["a", "b"]]] if fam == "cyc" else [[["s", "a"], ["a", "b"]]]
         steps.append(st)
-    if fam == "dag" and rng.random() < 0.6:          # the flow-decomposition pair that shares the most machinery
+    if fam == "dag" and (rng.random() < 0.6 or node_variant == "cache"):   # the flow-decomposition pair that shares the most machinery
         steps[0]["cls"] = "kFlowDecomp"; steps[-1]["cls"] = rng.choice(["kFlowDecomp", "MinFlowDecomp"])
         steps[0]["constraints"] = [[["s", "a"], ["a", "b"]]]
         steps[-1]["opts"] = dict(PROCESS_OPTS[1]); steps[-1].pop("constraints", None)
+        if node_variant == "cache":              # directed: two steps, the k of the base input, the safety lists as constraints twice
+            steps = [dict(steps[0], dk=0, opts=dict(PROCESS_OPTS[1])), dict(steps[-1], dk=0, cls="kFlowDecomp")]
 
     def run(seq):
         p = subprocess.run([sys.executable, "-c", PROCESS_SNIPPET, str(common.REPO), str(common.VERIF / "harness"), _json.dumps(seq)],
@@ -741,7 +743,7 @@ def process_state_case(ctx, rng, suite="C18.process_state", node_variant=None):
             return _json.loads(p.stdout.strip().splitlines()[-1])
         except Exception:
             return None
-    if (rng.random() < 0.35) if node_variant is None else node_variant:
+    if (rng.random() < 0.35) if node_variant is None else (node_variant != "cache" and node_variant):
         # node-weighted steps: an earlier model ignores a node / meets a node without value, the last one needs that node
         ncls = [c for c in classes if c not in K.COVER] or classes
         v = "b" if fam == "cyc" else "a"
@@ -806,7 +808,7 @@ def run(ctx):
         history_case(ctx, fam, random_history(rng, fam))
     threads_history_case(ctx)
     for it in range(ctx.n(6, 40)):
-        process_state_case(ctx, rng, node_variant=("flow" if it == 0 else "ignore" if it == 1 else None))
+        process_state_case(ctx, rng, node_variant=("flow" if it == 0 else "ignore" if it == 1 else "cache" if it == 2 else None))
     ctx.rep.sample({"suite": "C18.mutation", "cls": "kLeastAbsErrors", "config": "plain",
                     "arguments": {"optimization_options": dict(NONEMPTY_OPTS), "solver_options": dict(SOLVER_OPTS)}})
     ctx.rep.sample({"suite": "C18.history", "history": [{"cls": "kLeastAbsErrors", "features": ["options", "given_weights"], "dk": 0},
